@@ -21,6 +21,8 @@ Scenario = JSON object (one per line in corpus/stats/*.txt and in replay files):
   {"kind":"wscale","xws":[[x,w],..],"c":10.0}                 the same data with weights w and c*w: identical statistics
   {"kind":"wunit","xs":[..]}                                  weights 1: identical to the unweighted summary
   {"kind":"wzero","xws":[[x,w],..]}                           zero-weight samples interspersed: bitwise identical without them
+  {"kind":"dataset","xs":[..]}                                through cmb_dataset_add / cmb_dataset_summarize (a user)
+  {"kind":"timeseries","xts":[[x,t],..],"tend":T}             through cmb_timeseries_add / _finalize / _summarize (a user; non-empty)
 """
 import hashlib
 import json
@@ -532,6 +534,24 @@ def scenario_ops(scn):
         i1 = emit(("wget", 1))
         checks.append(("bitwise", i0, i1))
         checks.append(("stats", emit(("wstat", 0)), xws, len(xws), ""))
+    elif kind == "dataset":
+        xs = [float(x) for x in scn["xs"]]
+        emit(("xnew",))
+        for x in xs:
+            emit(("xadd", x))
+        emit(("xsum", 0))
+        checks.append(("stats", emit(("dstat", 0)), [(x, 1.0) for x in xs], len(xs), "cmb_dataset_summarize: "))
+    elif kind == "timeseries":
+        xts = [(float(x), float(t)) for x, t in scn["xts"]]
+        tend = float(scn["tend"])
+        emit(("tnew",))
+        for x, t in xts:
+            emit(("tadd", x, t))
+        emit(("tfin", tend))
+        emit(("tsum", 0))
+        # each value is held until the next time stamp (the same IEEE subtraction as the library performs)
+        xws = [(xts[i][0], (xts[i + 1][1] if i + 1 < len(xts) else tend) - xts[i][1]) for i in range(len(xts))]
+        checks.append(("stats", emit(("wstat", 0)), xws, len(xws), "cmb_timeseries_summarize: "))
     else:
         raise ValueError("unknown scenario kind %s" % kind)
     return ops, checks
@@ -646,7 +666,7 @@ def gen_scenarios(seed, total, quick=True, exclude=()):
     """exclude: predicates (scenario -> bool) of known-finding triggers"""
     rng = random.Random(seed * 1000003 + 5)
     out = []
-    kinds = ["seq", "merge_all_splits", "merge", "merge3", "wseq", "wmerge", "wscale", "wunit", "wzero", "merge_empty"]
+    kinds = ["seq", "merge_all_splits", "seq", "merge", "merge3", "wseq", "seq", "wmerge", "wscale", "wunit", "wzero", "merge_empty", "wseq", "dataset", "timeseries"]
     while len(out) < total:
         kind = kinds[len(out) % len(kinds)] if rng.random() < 0.8 else rng.choice(kinds)
         fam = rng.choice(VALUE_FAMS)
@@ -694,6 +714,15 @@ def gen_scenarios(seed, total, quick=True, exclude=()):
                 if rng.random() < 0.3:
                     ws[i] = 0.0
             new.append({"kind": "wzero", "xws": [list(p) for p in zip(xs, ws)]})
+        elif kind == "dataset":
+            new.append({"kind": "dataset", "xs": xs})
+        elif kind == "timeseries":
+            xs = xs or [1.0]
+            t, xts = 0.0, []
+            for x in xs:
+                xts.append([x, t])
+                t += rng.choice([0.0, 1.0, 0.5, rng.expovariate(1.0), rng.uniform(0, 3)])
+            new.append({"kind": "timeseries", "xts": xts, "tend": t + rng.choice([0.0, 1.0, rng.uniform(0, 2)])})
         for s in new:
             s["fam"] = fam
             if any(pred(s) for pred in exclude):
@@ -709,8 +738,10 @@ def scenario_key(scn):
 def scenario_samples(scn):
     """number of samples of non-zero weight involved (for the non-triviality rule)"""
     k = scn["kind"]
-    if k in ("seq", "wunit"):
+    if k in ("seq", "wunit", "dataset"):
         return len(scn["xs"])
+    if k == "timeseries":
+        return len(scn["xts"])
     if k == "merge":
         return sum(len(p) for p in scn["parts"]) + len(scn.get("then", []))
     if k in ("wseq", "wscale", "wzero"):
